@@ -11,3 +11,4 @@ void h_ag_allocateFromArray(void) { struct array_plus_grid *m; size_t w_n = nond
 void h_ag_recycleChunk(void) { struct array_plus_grid *m; node_address w_h = nondet_ulong(); size_t w_n = nondet_size_t(); H_AG(); array_plus_grid__recycleChunk(m, w_h, w_n); CANARY(); }
 void h_ag_requestChunk(void) { struct array_plus_grid *m; size_t *n; H_AG(); array_plus_grid__requestChunk(m, n); CANARY(); }
 void h_ag_stopTrackingHole(void) { struct array_plus_grid *m; node_address w_h = nondet_ulong(); H_AG(); array_plus_grid__stopTrackingHole_real(m, w_h); CANARY(); }
+void h_ag_startTrackingHole(void) { struct array_plus_grid *m; node_address w_h = nondet_ulong(); H_AG(); array_plus_grid__startTrackingHole_real(m, w_h); CANARY(); }
